@@ -39,6 +39,12 @@ def L2_container(ctx, fi, an, total_text, rule='returned-normalised-to-total'):
         c = v
         if isinstance(c, ast.Call) and len(c.args) == 1 and isinstance(c.func, ast.Name):
             c = c.args[0]           # CliqueVector(marginals)
+        # an element-wise copy of the container: {k: C[k].copy() for k in C}  (also list(C.items()) spellings are not needed here)
+        if isinstance(c, ast.DictComp) and len(c.generators) == 1 and not c.generators[0].ifs and isinstance(c.generators[0].iter, ast.Name) \
+                and isinstance(c.generators[0].target, ast.Name) and U(c.key) == c.generators[0].target.id:
+            C_, k_ = c.generators[0].iter.id, c.generators[0].target.id
+            if U(c.value).replace(' ', '') in ('%s[%s].copy()' % (C_, k_), '%s[%s]' % (C_, k_)):
+                c = c.generators[0].iter
         if isinstance(c, ast.Name):
             conts.add(c.id)
     for c in sorted(conts):
